@@ -8,6 +8,10 @@
 #include "CppUTest/MemoryLeakWarningPlugin.h"
 #include "CppUTest/TestMemoryAllocator.h"
 #include "CppUTest/TestHarness_c.h"
+#include "CppUTest/TestOutput.h"
+#include "CppUTest/TestResult.h"
+#include "CppUTest/TestFailure.h"
+#include "CppUTest/TestPlugin.h"
 #include "CppUTest/MemoryLeakDetectorMallocMacros.h"
 #undef new
 #undef malloc
@@ -266,6 +270,40 @@ static bool inPeriod(int nodePeriod, int q) { return q == mem_leak_period_all ||
 static Json sg(const char* k, const char* v) { Json j = Json::O(); j.set(k, Json::S(v)); return j; }
 static Json sg2(const char* k, const char* v, const char* k2, const char* v2) { Json j = Json::O(); j.set(k, Json::S(v)); j.set(k2, Json::S(v2)); return j; }
 
+// ---- the test that asks whether every designated failure happened. It is run the way the registry runs any test (runOneTest), so it starts unfailed
+// whatever earlier histories of this process did; its test object is static (nothing of it is allocated through the tracked operators).
+static FailableMemoryAllocator* g_askFailable = 0; static bool g_askAfterOwnFailure = false;
+class AskDoneTest : public Utest {
+public:
+    void testBody() CPPUTEST_OVERRIDE {
+        if (g_askAfterOwnFailure) { UtestShell* c = UtestShell::getCurrent(); c->addFailure(TestFailure(c, "hist.cpp", 2, SimpleString("the test's own failure"))); }
+        g_askFailable->checkAllFailedAllocsWereDone();
+    }
+};
+class AskDoneShell : public UtestShell {
+public:
+    Utest* t;
+    AskDoneShell(Utest* t_) : UtestShell("heapsim", "asks_whether_all_failed_allocs_were_done", "hist.cpp", 1), t(t_) {}
+    Utest* createTest() CPPUTEST_OVERRIDE { return t; }
+    void destroyTest(Utest*) CPPUTEST_OVERRIDE {}
+};
+class SilentOutput : public TestOutput {
+public:
+    void printBuffer(const char*) CPPUTEST_OVERRIDE {}
+    void flush() CPPUTEST_OVERRIDE {}
+    void printFailure(const TestFailure&) CPPUTEST_OVERRIDE {}
+};
+static bool askWhetherAllFailedAllocsWereDone(FailableMemoryAllocator& failable, bool afterOwnFailure) {
+    static AskDoneTest* test = new (::malloc(sizeof(AskDoneTest))) AskDoneTest();
+    static AskDoneShell* shell = new (::malloc(sizeof(AskDoneShell))) AskDoneShell(test);
+    static SilentOutput* out = new (::malloc(sizeof(SilentOutput))) SilentOutput();
+    g_askFailable = &failable; g_askAfterOwnFailure = afterOwnFailure;
+    TestResult res(*out);
+    shell->runOneTest(NullTestPlugin::instance(), res);
+    size_t own = afterOwnFailure ? 1 : 0;
+    return res.getFailureCount() > own;
+}
+
 struct Engine : public vf::Engine {
     const char* name() const { return "heapsim"; }
 #ifdef CPPUTEST_DISABLE_MEM_CORRUPTION_CHECK
@@ -281,6 +319,7 @@ struct Engine : public vf::Engine {
         PlatformSpecificMalloc = heapMalloc; PlatformSpecificRealloc = heapRealloc; PlatformSpecificFree = heapFree; PlatformSpecificMemCpy = memcpySeam; PlatformSpecificVSNprintf = vsnSeam;
         HEAP.init();
         MemoryLeakWarningPlugin::getGlobalDetector();      // the process-wide default detector must not live in the per-run arena
+        NullTestPlugin::instance();      // (nor the framework's other function-local statics that a run would otherwise be the first to touch)
         // one out-of-memory round while the default malloc allocator is current: whatever the C-level switch keeps in its file statics from its first use
         // is then the same object in every process and before every run (a run's outcome must be a function of its own history)
         setCurrentMallocAllocatorToDefault(); cpputest_malloc_set_out_of_memory(); cpputest_malloc_set_not_out_of_memory(); setCurrentMallocAllocatorToDefault();        {   // how does a report say that entries were dropped? learned from one that must (see core/leakreport.h); if it says nothing, nothing is learned and every such report is a violation
@@ -385,7 +424,7 @@ struct Engine : public vf::Engine {
                 else if (x < 60) { o.kind = H_REALLOC; o.a = (int64_t)w.below((uint64_t)nSlots); o.c = w.small(1, 64); int s = (int)w.below(N_SITES); o.s = siteFile(s); o.d = (int64_t)siteLine(s); }      // also while out of memory is simulated: NULL, the old block untouched, no report
                 else if (x < 70 && !faultFree) { o.kind = H_DESIGNATE_N; o.a = w.range(1, 12); }
                 else if (x < 82 && !faultFree) { o.kind = H_DESIGNATE_AT; o.a = w.range(1, 4); o.b = (int64_t)w.below(N_SITES); }
-                else if (x < 86) o.kind = H_CHECK_DONE;
+                else if (x < 86) { o.kind = H_CHECK_DONE; o.a = (int64_t)w.chance(1, 3); }      // a: the test that asks has a failure of its own already
                 else if (x < 89) o.kind = H_CLEAR_FAILS;
                 else if (x < 92 && !faultFree) { if (w.chance(1, 2)) { o.kind = H_OOM_COUNTDOWN; o.a = (int64_t)w.below(21); if (w.chance(1, 8)) { static const int neg[] = { -1, -2, -3, -10, -1000 }; o.a = neg[w.below(5)]; } } else o.kind = H_OOM_SET; }      // a negative count means: no countdown
                 else if (x < 93) o.kind = H_OOM_CLEAR;
@@ -904,8 +943,9 @@ struct Engine : public vf::Engine {
                 break;
             }
             case H_CHECK_DONE: {
-                bool reported = false;
-                try { failable.checkAllFailedAllocsWereDone(); } catch (CppUTestFailedException&) { reported = true; }
+                // asked by a test of its own (a fresh one each time, as every real test is): what it recorded says whether the pending designation was reported
+                bool reported = askWhetherAllFailedAllocsWereDone(failable, o.a != 0);
+                if (o.a) fired("check_asked_by_a_test_that_failed_already");
                 if (reported != !W.desig.empty()) fail(W, "C15", "never_done_check", sg("what", reported ? "reported although nothing is pending" : "pending designation not reported"), sfmt("op %zu: %zu designations pending", oi, W.desig.size()));
                 probe(reported ? "never_done_reported" : "all_done");
                 break;
